@@ -9,6 +9,7 @@
 mod enc;
 mod gen_tables;
 mod io;
+mod treeparse;
 mod valapi;
 mod walk;
 
@@ -82,9 +83,19 @@ fn parse_request(src: &str) -> String {
 }
 
 fn run(src: &str, stdin: Vec<u8>, write_budget: Option<usize>, read_fault: Option<usize>) -> String {
+    run_with(|| parse(src), stdin, write_budget, read_fault)
+}
+
+/// `run` on the program that `make` yields (inside the guard, as parsing always was).
+fn run_with<'a>(
+    make: impl FnOnce() -> Result<Program, ParseError<'a>>,
+    stdin: Vec<u8>,
+    write_budget: Option<usize>,
+    read_fault: Option<usize>,
+) -> String {
     let (reader, reads) = io::LineReader::new(stdin, read_fault);
     let (writer, received) = io::BudgetWriter::new(write_budget);
-    let outcome = guarded(|| match parse(src) {
+    let outcome = guarded(|| match make() {
         Err(e) => format!("parseerr {}", parse_error_head(&e)),
         Ok(program) => match exec_using(reader, writer, &program) {
             Ok(()) => "ok".to_string(),
@@ -99,20 +110,22 @@ fn run(src: &str, stdin: Vec<u8>, write_budget: Option<usize>, read_fault: Optio
 fn lint(src: &str) -> String {
     match parse(src) {
         Err(e) => format!("parseerr {}", parse_error_head(&e)),
-        Ok(program) => {
-            let diags: Vec<String> = standard_linter()
-                .run(&program)
-                .diags
-                .iter()
-                .map(|d| {
-                    let mut fields = vec![d.line.to_string(), xhex(&d.issue), d.suggestions.len().to_string()];
-                    fields.extend(d.suggestions.iter().map(|s| xhex(s)));
-                    fields.join(",")
-                })
-                .collect();
-            counted_list(&diags)
-        }
+        Ok(program) => lint_program(&program),
     }
+}
+
+fn lint_program(program: &Program) -> String {
+    let diags: Vec<String> = standard_linter()
+        .run(program)
+        .diags
+        .iter()
+        .map(|d| {
+            let mut fields = vec![d.line.to_string(), xhex(&d.issue), d.suggestions.len().to_string()];
+            fields.extend(d.suggestions.iter().map(|s| xhex(s)));
+            fields.join(",")
+        })
+        .collect();
+    counted_list(&diags)
 }
 
 /// The expression of the leading `say E`, if the program starts with one.
@@ -195,6 +208,22 @@ fn respond(line: &str) -> Option<String> {
             let (w, k, f) = (optional_index(w)?, k.parse().ok()?, optional_index(f)?);
             parse(&unx(src)?).ok().map(|program| walk::walk_seq(&program, w, k, f))
         }
+        // tree-level requests: the program is given as the s-expression that `parse` prints
+        ["dumpt", tree] => Some(format!("ok {}", enc::program(&treeparse::program(&unx(tree)?)?))),
+        ["walkt", tree, f] => {
+            let f = optional_index(f)?;
+            Some(walk::walk(&treeparse::program(&unx(tree)?)?, f))
+        }
+        // (harness only) the leaves-only visitor on a tree
+        ["walkleaft", tree, f] => {
+            let f = optional_index(f)?;
+            Some(walk::walk_leaves(&treeparse::program(&unx(tree)?)?, f))
+        }
+        ["runt", tree, stdin, w, r, _steps] => {
+            let program = treeparse::program(&unx(tree)?)?;
+            Some(run_with(|| Ok(program), unx_bytes(stdin)?, optional_index(w)?, optional_index(r)?))
+        }
+        ["lintt", tree] => Some(lint_program(&treeparse::program(&unx(tree)?)?)),
         ["val", op, args @ ..] => valapi::val_request(op, args),
         ["fmt", b] => Some(xhex(&unbits(b)?.to_string())),
         ["num", text] => Some(unx(text)?.parse::<f64>().map_or_else(|_| "none".to_string(), bits)),
